@@ -16,7 +16,7 @@ func init() {
 	property("C19",
 		"Static conformance of the lexer's position bookkeeping and tables: (a) width-fact typestate over every token construction site — a start/end column may be derived as 'counter - k' only where the last k characters are known to be one byte wide (ASCII case arms, peeked ASCII second characters); after a reader loop the current character is a lookahead of unknown width (possibly none at end of input), so the prev* counters must be used; byte counters go to byte fields and character counters to character fields; start fields are read before the token's first character is consumed; (b) readChar restarts the four column counters and increments the line exactly when the previous character was a newline; end of input is readPosition >= len(input) in readChar and peekChar alike; (c) on every non-queued path whitespace {space, tab, LF, CR} and '#' / '//' comments are skipped before the dispatch; (d) the keyword table equals the README keyword list. NOT decided: layout invariance of the token sequence itself (runtime string scanning; false by design where an identifier touches a quote or a comment separates adjacent strings).",
 		[]string{"unicode.IsLetter / IsDigit / utf8.DecodeRuneInString behave as documented", "go/ssa lowering is faithful to the source"},
-		"C19.a", "C19.b", "C19.c", "C19.d", "C16.a")
+		"C19.a", "C19.b", "C19.c", "C19.d", "C16.a", "C16.c", "C17.f")
 
 	register(&Rule{ID: "C19.a", Doc: "width-fact typestate over token construction sites", Floor: 40, Run: c19a})
 	register(&Rule{ID: "C19.b", Doc: "readChar line/column reset; end-of-input test shared by readChar and peekChar", Floor: 8, Run: c19b})
@@ -393,12 +393,57 @@ func c19a(c *Ctx) {
 	// E. readStringToken: start at the opening quote
 	{
 		var f map[string]string
+		var tokV ssa.Value
+		var tokRet *ssa.Return
 		for _, r := range returnsOf(rst) {
 			_, f = c.withFields(rst, c.term(rst, r.Results[0]))
+			tokV, tokRet = r.Results[0], r
 		}
-		ok := f != nil && f["StartCharIndex"] == "$0.prevCharNumber" && f["StartUtf8CharIndex"] == "$0.prevUtf8CharNumber" && f["LineNumber"] == "$0.lineNumber" &&
-			strings.HasSuffix(f["EndLineNumber"], "readString@0#1") && strings.HasSuffix(f["EndCharIndex"], "readString@0#2") && strings.HasSuffix(f["EndUtf8CharIndex"], "readString@0#3") && strings.HasSuffix(f["Literal"], "readString@0#0")
-		c.Check(ok, "readStringToken/positions", c.W.FuncPos(rst), "string token starts at the position before the opening quote; end values come from the reader", "readStringToken does not take (start byte, start char, line) from (prevCharNumber, prevUtf8CharNumber, lineNumber) at entry and the end from readString's results in order")
+		okStart := f != nil && f["StartCharIndex"] == "$0.prevCharNumber" && f["StartUtf8CharIndex"] == "$0.prevUtf8CharNumber" && f["LineNumber"] == "$0.lineNumber"
+		// F. the end fields, wherever they travel (several results, a record, locals): each is the
+		// counter of its kind — line / previous byte column / previous character column — read in
+		// readString right after a character (the closing quote) was consumed, or the 0 the
+		// variables start with; the literal is readString's text
+		okEnd := tokV != nil
+		why := ""
+		if tokV != nil {
+			for field, fam := range map[string]string{"EndLineNumber": "line", "EndCharIndex": "prevchar", "EndUtf8CharIndex": "prevutf8"} {
+				var fv ssa.Value
+				if ld, isLd := tokV.(*ssa.UnOp); isLd {
+					if al, isA := ld.X.(*ssa.Alloc); isA {
+						fv = fieldValue(al, field, tokRet)
+					}
+				}
+				if fv == nil {
+					okEnd, why = false, "cannot read "+field+" of the returned token"
+					continue
+				}
+				found := false
+				for _, lf := range c.originLeaves(rst, fv) {
+					if k, isC := intConst(lf.v); isC && k == 0 {
+						continue
+					}
+					if lf.fn != rs {
+						okEnd, why = false, field+" is "+pretty(c.term(lf.fn, lf.v))+" of "+lf.fn.Name()+", expected a counter read in readString"
+						continue
+					}
+					cu := parseCounter(c.term(rs, lf.v))
+					if cu.ok && cu.fam == fam && (strings.HasPrefix(cu.tag, "creadChar@") || consumerTag(cu.tag)) {
+						found = true
+					} else {
+						okEnd, why = false, field+" comes from "+pretty(c.term(rs, lf.v))+", expected the "+fam+" counter read after the closing quote was consumed"
+					}
+				}
+				if !found {
+					okEnd = false
+					if why == "" {
+						why = field + " never receives a counter of readString"
+					}
+				}
+			}
+		}
+		c.Check(okStart, "readStringToken/positions", c.W.FuncPos(rst), "string token starts at the position before the opening quote", "readStringToken does not take (start byte, start char, line) from (prevCharNumber, prevUtf8CharNumber, lineNumber) at entry")
+		c.Check(okEnd, "readString/end-positions", c.W.FuncPos(rs), "end = (line, prevCharNumber, prevUtf8CharNumber) right after consuming the closing quote, in the fields of their kind", "the end position of a string token is wrong: "+why)
 		// called when the current character is the quote
 		n := 0
 		for _, call := range callsToIn(fn, rst) {
@@ -412,38 +457,6 @@ func c19a(c *Ctx) {
 			}
 			c.Check(okQ, fmt.Sprintf("readStringToken/call#%d-at-quote", n), c.W.Pos(call.Pos()), "called with the opening quote as current character", "readStringToken is called when the current character is not known to be '\"'")
 		}
-	}
-	// F. readString: end values are the prev* counters / line after the closing quote was consumed
-	{
-		ok := false
-		for _, r := range returnsOf(rs) {
-			var leaves [4][]ssa.Value
-			if len(r.Results) < 4 {
-				ok = false
-				c.Unk("readString/results", c.W.Pos(r.Pos()), fmt.Sprintf("readString returns %d values; the rule reads (text, end line, end byte, end char)", len(r.Results)))
-				continue
-			}
-			for i := 1; i <= 3; i++ {
-				phiLeaves(r.Results[i], map[ssa.Value]bool{}, &leaves[i])
-			}
-			okAll := true
-			for i, fam := range map[int]string{1: "line", 2: "prevchar", 3: "prevutf8"} {
-				found := false
-				for _, lf := range leaves[i] {
-					cu := parseCounter(c.term(rs, lf))
-					if cu.ok && cu.fam == fam && (strings.HasPrefix(cu.tag, "creadChar@") || consumerTag(cu.tag)) {
-						found = true
-					} else if k, isC := intConst(lf); !(isC && k == 0) {
-						okAll = false
-					}
-				}
-				if !found {
-					okAll = false
-				}
-			}
-			ok = okAll
-		}
-		c.Check(ok, "readString/end-positions", c.W.FuncPos(rs), "end = (line, prevCharNumber, prevUtf8CharNumber) right after consuming the closing quote", "readString's end positions are not (lineNumber, prevCharNumber, prevUtf8CharNumber) read after the closing quote is consumed")
 	}
 }
 
@@ -465,6 +478,30 @@ func c19b(c *Ctx) {
 	pk := c.Fn("lexer.Lexer.peekChar")
 	if fn == nil || pk == nil {
 		return
+	}
+	// the counters have one writer: whatever else moves through the input does so by calling
+	// readChar (a shortcut that sets the counters itself has to re-derive lines and columns, and
+	// sees line breaks differently from readChar sooner or later)
+	{
+		counters := map[string]bool{"ch": true, "position": true, "readPosition": true, "lineNumber": true, "charNumber": true, "utf8CharNumber": true, "prevCharNumber": true, "prevUtf8CharNumber": true}
+		var bad []string
+		for _, f := range c.W.FuncsOf("lexer") {
+			if f == fn || isTestFunc(c.W, f) {
+				continue
+			}
+			instrs(f, func(in ssa.Instruction) {
+				st, ok := in.(*ssa.Store)
+				if !ok {
+					return
+				}
+				if _, t, fld, ok := fieldAddrOf(st.Addr); ok && typeIs(t, "lexer", "Lexer") && counters[fld] {
+					if _, fresh := rootValue(st.Addr).(*ssa.Alloc); !fresh { // New initialises a fresh lexer
+						bad = append(bad, f.Name()+" sets "+fld+" at "+c.W.Pos(st.Pos()))
+					}
+				}
+			})
+		}
+		c.Check(len(bad) == 0, "counters/single-writer", c.W.FuncPos(fn), "only readChar moves the lexer's position, line and column counters", "the lexer's counters are also written outside readChar ("+strings.Join(bad, "; ")+"): lines and columns are then counted in two ways")
 	}
 	type row struct{ field, value, guard, label string }
 	sizePhi := ""
@@ -627,7 +664,7 @@ func c19c(c *Ctx) {
 			for b := range loopBody(head) {
 				for _, ci := range callsIn(sw) {
 					if ci.Block() == b && callee(ci) != nil && callee(ci).Name() == "readChar" {
-						d := c.PC(sw).At(b)
+						d := c.PC(sw).openPredicates(c.PC(sw).At(b))
 						got = d.String()
 						var set []string
 						for _, at := range dnfAtoms(d) {
@@ -751,7 +788,11 @@ func c19c(c *Ctx) {
 								case "true":
 									nT++
 									if _, free := existsPath(pathQuery{from: entry(h), avoid: isRead, target: func(in ssa.Instruction) bool { return in == ssa.Instruction(rr) }}); free {
-										bad = true
+										// ... unless every such way is contradictory (the loop is entered under
+										// a test that guarantees its first iteration)
+										if cs := unconsumedConds(c, h, rr.Block(), isRead, true); cs == nil || len(cs) > 0 {
+											bad = true
+										}
 									}
 								case "false":
 									nF++
@@ -822,6 +863,18 @@ func c19c(c *Ctx) {
 	// only what is said about the current and the next character matters here (the test for
 	// queued tokens, however it is spelled, precedes the loop)
 	got := dropAtoms(bodyD, func(a string) bool { return !strings.Contains(a, "$0.ch") && !strings.Contains(a, "peekChar(") })
+	// (the look-ahead made inside a predicate helper is the same look-ahead)
+	{
+		norm := dnf{unknown: got.unknown}
+		for _, cj := range got.cs {
+			var n conj
+			for _, l := range cj {
+				n = append(n, regexpMust(`peekChar\(\$0\)@v\d+x\d+`).ReplaceAllString(l, "peekChar($$0)@0"))
+			}
+			norm.cs = append(norm.cs, n)
+		}
+		got = norm
+	}
 	c.Check(nSkipLine == 1 && nSkipWs == 1 && dnfEquiv(got, want), "NextToken/comment-openers", c.W.Pos(head.Instrs[0].Pos()), "a comment starts with '#' or '//' and is skipped to the end of the line, followed by whitespace skipping", "the comment loop runs under ["+got.String()+"], expected (ch == '#') || (ch == '/' && peekChar() == '/'), skipping the line and then whitespace")
 	pre := false
 	for _, ci := range callsToIn(fn, sw) {
